@@ -546,7 +546,15 @@ class _ChainedRunnerIterator(Iterable[_ValueT]):
     if isinstance(state, _IteratorState):
       assert len(self._iterators) == 1, f'{len(self._iterators)=}'
       state = {it.name: state for it in self._iterators}
-    iterators = [it.from_state(state[it.name]) for it in self._iterators]
+    # An iterator restores the iterator it reads from along with itself (that
+    # is its data source): restore the last one and pick the others up from it.
+    # Restoring each one separately yields detached upstream iterators that are
+    # never advanced, whose aggregation states would stay as of the checkpoint.
+    last = self._iterators[-1]
+    iterators = [last.from_state(state[last.name])]
+    for _ in self._iterators[:-1]:
+      (upstream,) = iterators[0]._data_sources  # pylint: disable=protected-access
+      iterators.insert(0, upstream)
     return _ChainedRunnerIterator(
         iterators,
         with_result=self._with_result,
